@@ -222,6 +222,16 @@ def rule_play(ctx):
         src.endswith(f'return bi.roundup({rb} - self._base_bar_beat - bi.mod({ph}, {q}), {q}) + self._base_bar_beat + {ph}')
     ctx.ob('C12.play', f'{g.fq}', ok,
            'grid time = roundup(ref - bar_origin - phase mod quant, quant) + bar_origin + phase, counted from the last meter change', g.node, mod)
+    rets = [x for x in walk_local(g.node) if isinstance(x, ast.Return)]
+    guards = []
+    for r_ in rets:
+        gd = [norm(p_.test) for p_ in U.parent_chain(r_) if isinstance(p_, ast.If)]
+        guards.append((gd, norm(r_.value)))
+    ok = len(rets) == 2 and guards[0] in [([f'{q} == 0'], f'{rb} + {ph}')] + [] or \
+        sorted(guards, key=lambda x: len(x[0]))[0][0] == [] and len(rets) == 2 and any(gd == [f'{q} == 0'] and v == f'{rb} + {ph}' for gd, v in guards)
+    ctx.ob('C12.play', f'{g.fq}:exits', ok,
+           f'next_time_on_grid must have exactly two results: refbeat + phase when quant == 0, else the grid formula counted from the last meter '
+           f'change; found {guards} (an extra shortcut returns beats that are not on the grid after a meter change)', g.node, mod)
     t = ci.methods['time_to_next_beat']
     ctx.ob('C12.play', f'{t.fq}', full(t.node).endswith('return ntog - self.beats'), 'time to next beat is grid time minus now', t.node, mod)
     # meter change re-bases bars
@@ -269,6 +279,8 @@ MUTANTS = [
          old="return self.bars2beats(bi.ceil(self.beats2bars(beat)))", new="return self.bars2beats(bi.floor(self.beats2bars(beat)))"),
     dict(rule='C12.play', name='grid ignores bar origin', file='sc3/base/clock.py',
          old="        ) + self._base_bar_beat + phase", new="        ) + phase"),
+    dict(rule='C12.play', name='fast path for the default quant ignores the bar origin', file='sc3/base/clock.py',
+         old="        elif quant < 0:\n            raise ValueError(\"quant can't be negative\")", new="        elif quant == 1 and phase == 0:\n            return float(bi.ceil(refbeat))\n        elif quant < 0:\n            raise ValueError(\"quant can't be negative\")"),
 ]
 
 REPAIRS = []
